@@ -205,6 +205,31 @@ AddPolicy ==
                   ingress |-> <<>>, egress |-> <<>>]
        IN Step("AddPolicy", <<i>>, [world EXCEPT !.netpols = Append(@, np)])
 
+(* policies written FOR an existing workload (selected by its own labels)                                                   *)
+SelOf(wl) == IF DOMAIN wl.labels = {} THEN EmptySel ELSE MLSel(wl.labels)
+NewPolicyFor(wl, ing) ==
+  [ns |-> wl.ns, name |-> NPName(Len(world.netpols) + 1), podSel |-> SelOf(wl), typesNil |-> TRUE, types |-> <<>>,
+   ingress |-> ing, egress |-> <<>>]
+(* ... opening one of its NAMED container ports, whichever it is (also a later declaration of a port number that an earlier *)
+(* container port already uses with another protocol)                                                                        *)
+AddPolicyForNamedPort ==
+  /\ Len(world.netpols) < MaxNP /\ Len(world.workloads) > 0
+  /\ \E i \in Pick({j \in DOMAIN world.workloads : \E k \in DOMAIN world.workloads[j].ports : world.workloads[j].ports[k].name # ""}) :
+       LET wl == world.workloads[i]
+       IN \E k \in Pick({k \in DOMAIN wl.ports : wl.ports[k].name # ""}) :
+            Step("AddPolicy", <<Len(world.netpols) + 1>>,
+                 [world EXCEPT !.netpols = Append(@, NewPolicyFor(wl, <<[peers |-> <<>>,
+                                                                        ports |-> <<NamePort(FALSE, wl.ports[k].proto, wl.ports[k].name)>>]>>))])
+(* ... opening one HALF of everything: two such policies on one workload add up to all connections, which must then be      *)
+(* reported as such (the union of connection sets that completes a protocol without adding one)                              *)
+HalfOfAll(h) == IF h = 1 THEN <<RngPort(FALSE, "TCP", 1, 3), ProtoOnly(FALSE, "UDP"), ProtoOnly(FALSE, "SCTP")>>
+                ELSE <<RngPort(FALSE, "TCP", 4, 5), ProtoOnly(FALSE, "UDP"), ProtoOnly(FALSE, "SCTP")>>
+AddHalfPolicy ==
+  /\ Len(world.netpols) < MaxNP /\ Len(world.workloads) > 0
+  /\ \E i \in Pick(DOMAIN world.workloads), h \in Pick({1, 2}) :
+       Step("AddPolicy", <<Len(world.netpols) + 1>>,
+            [world EXCEPT !.netpols = Append(@, NewPolicyFor(world.workloads[i], <<[peers |-> <<>>, ports |-> HalfOfAll(h)]>>))])
+
 PeerChoices(dir) == {<<>>} \cup {<<p>> : p \in PodPeerCat \cup IPPeerCat}
 PortChoices(dir, peers) ==
   \* named ports on an egress rule that may select addresses lead to the documented fatal error
@@ -403,7 +428,7 @@ ExplicitPolicyTypes ==
 
 AddRuleAgain == AddRule      \* listed twice: TLC's simulator picks uniformly among the disjuncts of Next
 AddRuleOnceMore == AddRule
-NPNext == AddRuleAgain \/ AddRuleOnceMore \/ AddCidrAgain \/ AddWorkload \/ AddTwinWorkload \/ NameLikePlaceholder \/ RemoveWorkload \/ ReExpressWorkload \/ RelabelNamespace \/ AddPolicy \/ AddRule \/ AddPeer \/ AddPort
+NPNext == AddRuleAgain \/ AddRuleOnceMore \/ AddCidrAgain \/ AddPolicyForNamedPort \/ AddHalfPolicy \/ AddWorkload \/ AddTwinWorkload \/ NameLikePlaceholder \/ RemoveWorkload \/ ReExpressWorkload \/ RelabelNamespace \/ AddPolicy \/ AddRule \/ AddPeer \/ AddPort
           \/ SetPolicyTypes \/ RemovePolicy \/ RespellPodSelAsIn \/ RespellPeerSelAsIn \/ SplitRange \/ SplitCidr
           \/ SplitPolicy \/ ExplicitPolicyTypes \/ MoveCidr \/ MoveCidrAgain \/ RemoveRule
 
@@ -563,21 +588,31 @@ DerivedSvcPorts(wl, v) ==
              [] v = 3 -> explicit
              [] v = 4 -> IF k = 1 THEN explicit ELSE OptNil      \* mixed: explicit first, defaulted after
              [] OTHER -> IF k = 1 THEN OptNil ELSE explicit)]
+(* service port NAMES that collide with targetPort names: the first port is called "alias" and targets the first container port *)
+(* by name; the second port is CALLED like that container port and targets the second container port by number               *)
+AliasedSvcPorts(wl) ==
+  LET t == TcpPorts(wl)
+  IN <<SP("alias", t[1].port, OptName(t[1].name)), SP(t[1].name, t[2].port, OptNum(t[2].port))>>
 
 AddServiceFor ==
   /\ Len(world.services) < 3
   /\ \E i \in Pick({j \in DOMAIN world.workloads : Len(TcpPorts(world.workloads[j])) > 0 /\ DOMAIN world.workloads[j].labels # {}}),
-        v \in Pick(1..5) :
+        v \in Pick(1..6) :
        LET wl == world.workloads[i]
            n == Len(world.services) + 1
+           aliased == v = 6 /\ Len(TcpPorts(wl)) >= 2 /\ TcpPorts(wl)[1].name # ""
        IN Step("AddService", <<n>>,
                [world EXCEPT !.services = Append(@, [ns |-> wl.ns, name |-> SvcName(n), selNil |-> FALSE,
-                                                    selector |-> wl.labels, ports |-> DerivedSvcPorts(wl, v)])])
+                                                    selector |-> wl.labels,
+                                                    ports |-> IF aliased THEN AliasedSvcPorts(wl) ELSE DerivedSvcPorts(wl, v)])])
 
 ByName(s, k) == [svc |-> s.name, port |-> OptName(s.ports[k].name)]
 ByNum(s, k) == [svc |-> s.name, port |-> OptNum(s.ports[k].port)]
+(* a backend port name that is the NAME of a targetPort of the service (whether or not a service port is called like that) *)
+ByTargetName(s) == {<<[svc |-> s.name, port |-> OptName(s.ports[k].targetPort.name)]>> :
+                      k \in {k \in DOMAIN s.ports : ~s.ports[k].targetPort.nil /\ s.ports[k].targetPort.kind = "name"}}
 BackendsOf(s) ==
-  {<<ByName(s, 1)>>, <<ByNum(s, 1)>>}
+  {<<ByName(s, 1)>>, <<ByNum(s, 1)>>} \cup ByTargetName(s)
   \cup (IF Len(s.ports) >= 2
         THEN {<<ByName(s, 1), ByName(s, 2)>>, <<ByName(s, 2), ByName(s, 1)>>, <<ByNum(s, 1), ByName(s, 2)>>,
               <<ByName(s, 2)>>, <<ByNum(s, 2), ByNum(s, 1)>>}
